@@ -19,10 +19,36 @@ def verus_version():
 
 
 def run_unit(unit, repo='/repo', mode='partial', use_cache=True, outdir=None, extra_args=None, rlimit=None):
-    """Returns dict(status='ok'|'undecided', reason, meta, functions, errors, verified, n_errors, wall_s, smt_ms, cached)."""
+    """Returns dict(status='ok'|'undecided', reason, meta, functions, errors, verified, n_errors, wall_s, smt_ms, cached, stubbed).
+
+    Degraded mode (DESIGN 13.6): a function whose body cannot be brought into the verifiable subset on this tree (lost anchor,
+    construct the front end rejects) is emitted as an ASSUMED contract and listed in `stubbed`; the rest of the unit is still verified,
+    so a failed obligation elsewhere is still reported. Clauses of a stubbed function are undecided, never discharged."""
     t0 = time.time()
+    stub = {}
+    last = None
+    for attempt in range(8):
+        r = _run_once(unit, repo, mode, use_cache, outdir, extra_args, rlimit, set(stub), t0)
+        last = r
+        if r['status'] == 'ok' or not r.get('frontend_owners'):
+            break
+        new = [o for o in r['frontend_owners'] if o not in stub]
+        if not new:
+            break
+        for o in new:
+            stub[o] = r['frontend_owners'][o]
+    if last.get('status') == 'ok':
+        st = dict(last['meta'].get('stubbed', {}))
+        for k, v in stub.items():
+            st[k] = v
+        last['stubbed'] = st
+    last.pop('frontend_owners', None)
+    return last
+
+
+def _run_once(unit, repo, mode, use_cache, outdir, extra_args, rlimit, stub, t0):
     try:
-        meta = asm.assemble(unit, repo, mode, outdir)
+        meta = asm.assemble(unit, repo, mode, outdir, stub=stub)
     except asm.AssembleError as e:
         return {'status': 'undecided', 'reason': 'assemble: %s' % e, 'unit': unit, 'mode': mode, 'wall_s': time.time() - t0}
     text = open(meta['file']).read()
@@ -53,14 +79,41 @@ def run_unit(unit, repo='/repo', mode='partial', use_cache=True, outdir=None, ex
             except Exception:
                 pass
     errs = [d for d in diags if d.get('level') == 'error']
+    fn_ranges = [(f['out_start'], f['out_end'], f) for f in meta['functions']]
+
+    def frontend_owners():
+        """contracted functions whose BODY holds the span of a front-end error (not their signature/contract lines)"""
+        own = {}
+        base = os.path.basename(meta['file'])
+        for d in errs:
+            msg = d.get('message', '')
+            if msg.startswith('aborting due to'):
+                continue
+            spans = [sp for sp in d.get('spans', []) if os.path.basename(sp.get('file_name', '')) == base]
+            prim = [sp for sp in spans if sp.get('is_primary')] or spans
+            hit = None
+            for sp in prim:
+                for a_, b_, f in fn_ranges:
+                    if a_ <= sp['line_start'] <= b_ and not f.get('stubbed'):
+                        hit = f
+                        break
+                if hit:
+                    break
+            if hit is None:
+                return {}       # an error outside every extracted body: cannot be isolated
+            own[hit['name']] = 'front end: ' + msg[:200]
+        return own
+
     if out is None or 'verification-results' not in out:
         res.update({'status': 'undecided', 'reason': 'verus produced no result (compile error in assembled text?)',
-                    'stderr': p.stderr[-4000:], 'diagnostics': [d.get('rendered', d.get('message')) for d in errs][:10]})
+                    'stderr': p.stderr[-4000:], 'diagnostics': [d.get('rendered', d.get('message')) for d in errs][:10],
+                    'frontend_owners': frontend_owners()})
         return res
     vr = out['verification-results']
     if vr.get('encountered-vir-error') or (not vr.get('success') and vr.get('errors', 0) == 0):
         res.update({'status': 'undecided', 'reason': 'verus front-end error (unsupported construct / type error)',
-                    'diagnostics': [d.get('rendered', d.get('message')) for d in errs][:10]})
+                    'diagnostics': [d.get('rendered', d.get('message')) for d in errs][:10],
+                    'frontend_owners': frontend_owners()})
         return res
     funcs = {}
     smt_ms = 0
@@ -74,7 +127,6 @@ def run_unit(unit, repo='/repo', mode='partial', use_cache=True, outdir=None, ex
             smt_ms += fb.get('time', 0)
     # map diagnostics to labels
     label_by_line = {l['out_line']: l for l in meta['labels']}
-    fn_ranges = [(f['out_start'], f['out_end'], f) for f in meta['functions']]
     thm_lines = sorted((t['out_line'], t) for t in meta['theorems'])
     nlines = len(meta['origins'])
 
@@ -216,7 +268,7 @@ if __name__ == '__main__':
         for e in r.get('errors', []):
             print('-', e['message'], '| owner:', e['owner'], '| labels:', [l['name'] for l in e['labels']], '|', e['origin'])
         sys.exit(2)
-    print('verified', r['verified'], 'errors', r['n_errors'], 'wall', r['wall_s'], 'cached', r['cached'])
+    print('verified', r['verified'], 'errors', r['n_errors'], 'wall', r['wall_s'], 'cached', r['cached'], 'stubbed', r.get('stubbed'))
     for e in r['errors']:
         print('-', e['message'], '| owner:', e['owner'], '| labels:', [l['name'] for l in e['labels']], '|', e['origin'])
         if not e['labels']:
